@@ -30,6 +30,28 @@ ASSUMPTIONS = [
 ]
 
 
+def probe_absent(profile, expected, what):
+    """Looking a path up that the profile does not contain (by subscript, the access style of the README, by .get and by
+    ``in``) never makes the view list it: the view shows what the profile says, before and after."""
+    view = lib(lambda: profile.properties, what="properties")
+    for path in ("stage.zz_absent", "http-get.zz_absent", "zz_absent"):
+        if path in expected:
+            continue
+        try:
+            view[path]
+        except KeyError:
+            pass
+        except Exception as e:  # noqa: BLE001
+            raise Violation("dict:absent_lookup", f"{what}: subscripting the view with the absent path {path!r} raised {e!r}")
+        view.get(path)
+        path in view
+    after = lib(lambda: profile.properties, what="properties (after look-ups)")
+    if dict(after) != dict(expected) or list(after) != list(expected):
+        extra = [k for k in after if k not in expected]
+        raise Violation("dict:lookup_changes_view", f"{what}: after looking up absent paths the view lists {extra[:4]!r} (paths the profile does not contain)")
+    eq(dict(lib(profile.as_dict, what="as_dict (after look-ups)")), dict(expected), "dict:lookup_changes_view", f"{what}: as_dict() after looking up absent paths")
+
+
 def as_dict_of(profile):
     d = lib(profile.as_dict, what="as_dict")
     check(isinstance(d, dict), "dict:type", f"as_dict returned {type(d)}")
@@ -74,6 +96,7 @@ def model_execute(case, stats):
     model, loose = compare_model(d, nodes)
     eq(as_dict_of(p), d, "dict:not_repeatable", "second as_dict() call")
     eq(lib(lambda: p.properties), d, "dict:properties_alias", "properties == as_dict()")
+    probe_absent(p, d, "parsed profile")
     n = G.count_statements(nodes)
     has_list = any(k in PL.LIST_PATHS for k in model)
     has_pair = any(isinstance(v, tuple) for vals in model.values() for v in vals)
@@ -327,6 +350,7 @@ class DictState:
         elif kind in ("as_dict", "properties"):
             d = lib(self.profile.as_dict if kind == "as_dict" else (lambda: self.profile.properties), what=kind)
             compare_model(d, twin_nodes(c2profile, self.nodes), what=f"view after {len(self.nodes)} modifications")
+            probe_absent(self.profile, dict(d), f"profile after {len(self.nodes)} modifications")
             self.reads += 1
             self.mods_since_read = 0
 
